@@ -1,9 +1,9 @@
 #!/bin/sh
-# usage: tools_seedrun.sh <patch.diff> <property> [extra vcheck args]
-# applies a seeded change to /repo, runs the property's check, reverts.
+# usage: tools/seedrun.sh <patch.diff> <property> [extra vcheck args]
+# applies a seeded change to /repo, runs the property's check (max 15 min), reverts.
 P=$1; shift
 git -C /repo apply "$P" || { echo "patch does not apply"; exit 3; }
-/verif/bin/vcheck "$@"
+trap 'git -C /repo checkout -- . ; git -C /repo clean -fdq' EXIT INT TERM
+timeout 900 /verif/bin/vcheck "$@"
 rc=$?
-git -C /repo checkout -- . && git -C /repo clean -fdq
 echo "exit=$rc"
